@@ -159,6 +159,62 @@ def pick_value(rng, name, shadows):
     raise ValueError(name)
 
 
+def change(ctx, srv, rng, shadows, uniq):
+    """One attribute or state change of one object by its owner between two Locates; the model follows only changes the
+    server acknowledged.  Group and name values are drawn from a small pool, so that several objects carry equal values -
+    a change of one object's instance must not show in the others' search results."""
+    live = [s for s in shadows if s.policy in (None, 'default', 'open', 'team')]
+    hot = []
+    if not live:
+        return hot
+    sh = rng.choice(live)
+    ident = (sh.owner, None)
+    what = rng.choice(('modify-group', 'modify-group', 'delete-group', 'modify-name', 'delete-name', 'activate'))
+    try:
+        if what == 'modify-group' and sh.groups:
+            i = rng.randrange(len(sh.groups))
+            new = rng.choice(['grp-%d' % k for k in range(6)] + ['grp-new-%d' % next(uniq)])
+            if new in sh.groups:
+                return hot
+            if rng.random() < 0.6:
+                r = srv.send([op_modify_attribute_1x(sh.uid, rig.attr(A.OBJECT_GROUP, new, i))], ident, (1, 2))
+            else:
+                r = srv.send([op_modify_attribute_20(sh.uid, A.OBJECT_GROUP, new, sh.groups[i], True)], ident, (2, 0))
+            if r.error is None and r.ok():
+                hot += [('Object Group', sh.groups[i]), ('Object Group', new)]
+                sh.groups[i] = new
+                ctx.count('changes_between_locates')
+        elif what == 'delete-group' and sh.groups:
+            i = rng.randrange(len(sh.groups))
+            r = srv.send([op_delete_attribute_1x(sh.uid, 'Object Group', i)], ident, (1, 2))
+            if r.error is None and r.ok():
+                hot.append(('Object Group', sh.groups.pop(i)))
+                ctx.count('changes_between_locates')
+        elif what == 'modify-name' and sh.names:
+            i = rng.randrange(len(sh.names))
+            new = 'nm-mod-%d' % next(uniq)
+            r = srv.send([op_modify_attribute_1x(sh.uid, rig.attr(A.NAME, name_value(new), i))], ident, (1, 2))
+            if r.error is None and r.ok():
+                hot += [('Name', sh.names[i]), ('Name', (new, E.NameType.UNINTERPRETED_TEXT_STRING))]
+                sh.names[i] = (new, E.NameType.UNINTERPRETED_TEXT_STRING)
+                ctx.count('changes_between_locates')
+        elif what == 'delete-name' and sh.names:
+            i = rng.randrange(len(sh.names))
+            r = srv.send([op_delete_attribute_1x(sh.uid, 'Name', i)], ident, (1, 2))
+            if r.error is None and r.ok():
+                hot.append(('Name', sh.names.pop(i)))
+                ctx.count('changes_between_locates')
+        elif what == 'activate' and sh.state == S.PRE_ACTIVE:
+            r = srv.send([op_activate(sh.uid)], ident, (1, 2))
+            if r.error is None and r.ok():
+                hot += [('State', S.ACTIVE), ('State', S.PRE_ACTIVE)]
+                sh.state = S.ACTIVE
+                ctx.count('changes_between_locates')
+    except Exception:
+        ctx.count('change_not_encodable')
+    return hot
+
+
 def run_case(ctx, case):
     rng = ctx.rng()
     clock = rig.install_clock(rig.VClock(step=0))
@@ -200,7 +256,13 @@ def run_case(ctx, case):
                         shadows.remove(sh)
             by_uid = {s.uid: s for s in shadows}
             dates = sorted(set(s.date for s in shadows)) or [clock.now]
+            uniq = iter(range(10 ** 6))
+            changing = case['hist'] % 2 == 1
+            hot = []
             for q in range(45):
+                if changing and q % 3 == 2:
+                    for _ in range(rng.randrange(1, 4)):
+                        hot += change(ctx, srv, rng, shadows, uniq)
                 ident = (rng.choice(USERS + ['carol']), rng.choice(GROUPSETS))
                 version = rng.choice(rig.VERSIONS)
                 nf = rng.choice((0, 1, 1, 1, 2, 2, 3, 4))
@@ -210,6 +272,12 @@ def run_case(ctx, case):
                     # a date range (two Initial Date filters, either order), alone or with another filter
                     fnames = ['Initial Date', 'Initial Date'] + ([rng.choice(FILTERS[:-1])] if rng.random() < 0.4 else [])
                     rng.shuffle(fnames)
+                forced = None
+                if hot and q % 3 != 2:
+                    # the values a change just touched (old and new) are searched for, alone or beside another filter
+                    forced = hot.pop(rng.randrange(len(hot)))
+                    fnames = [forced[0]] + ([rng.choice(FILTERS[:-1])] if rng.random() < 0.25 else [])
+                    ctx.count('locates_on_changed_values')
                 if version < (1, 4):
                     fnames = [f for f in fnames if f != 'Sensitive']
                 if version >= (2, 0):
@@ -227,6 +295,8 @@ def run_case(ctx, case):
                         filt.append(('Initial Date', dv))
                     else:
                         v = pick_value(rng, fn, shadows)
+                        if forced is not None and fn == forced[0]:
+                            v, forced = forced[1], None
                         try:
                             filter_attr(fn, v)
                         except Exception:
